@@ -72,9 +72,10 @@ theorem step_calldataload_agrees (s : IState) (hcode : s.code[s.pc]? = some 0x35
 theorem step_calldatacopy_agrees (s : IState) (hcode : s.code[s.pc]? = some 0x37) (hwf : WFM s) :
     step s = .pure (calldatacopyRule s) := Proofs.EvmStep2.step_calldatacopy s hcode hwf
 
-/-- CODECOPY: the contract's own bytes (`code.take origLen`: without the analysis padding) -/
-theorem step_codecopy_agrees (s : IState) (hcode : s.code[s.pc]? = some 0x39) (hwf : WFM s) :
-    step s = .pure (codecopyRule s) := Proofs.EvmStep2.step_codecopy s hcode hwf
+/-- CODECOPY in legacy code (in an EOF frame its `assume!(!is_eof)` is violated: a fault of the model): the contract's
+own bytes (`code.take origLen`: without the analysis padding) -/
+theorem step_codecopy_agrees (s : IState) (hcode : s.code[s.pc]? = some 0x39) (hwf : WFM s)
+    (hleg : s.isEof = false) : step s = .pure (codecopyRule s) := Proofs.EvmStep2.step_codecopy s hcode hwf hleg
 
 /-- RETURNDATACOPY (EIP-211): `OutOfOffset` exactly when `off + len` (unbounded sum) exceeds the buffer -/
 theorem step_returndatacopy_agrees (s : IState) (hcode : s.code[s.pc]? = some 0x3e) (hwf : WFM s) :
